@@ -198,3 +198,115 @@ package mqtt
 //@   ensures[C03] qos0_behind_queue: evRet[error]("(*BaseClient).ValidateMessage", 0, 0) == nil && qlen > 0 && message.QoS == QoS0 ==>
 //@        evCount("(*RetryClient).publish$1") == 0 && queueAppended(c.retryQueue, qs, 0)
 //@   ensures[C03] in_order: evCount("(*RetryClient).publish$1") == 1 ==> qlen == 0
+
+//@ func (*RetryClient).Subscribe$1
+//@   mode int
+//@   props C01 C03
+//@   requires c != nil && cli != nil && ctx != nil && cli.Transport != nil && subscribable(subs) && !sameArray(c.subEstablished, subs)
+//@   assigns c.subEstablished; c.retryQueue; c.newRetryByError; cli.idLast; subs[*]
+//@   ensures[C01,C03] runs_subscribe: evCount("(*RetryClient).subscribe") == 1 && evArg[*BaseClient]("(*RetryClient).subscribe", 0, 3) == cli &&
+//@        sameSlice(evArg[[]Subscription]("(*RetryClient).subscribe", 0, 4), subs) && evArg[*RetryClient]("(*RetryClient).subscribe", 0, 0) == c &&
+//@        evArg[bool]("(*RetryClient).subscribe", 0, 2) == false
+
+//@ func (*RetryClient).Unsubscribe$1
+//@   mode int
+//@   props C01 C03
+//@   requires c != nil && cli != nil && ctx != nil && cli.Transport != nil && unsubscribable(topics)
+//@   assigns c.subEstablished; (c.subEstablished)[*]; c.retryQueue; c.newRetryByError; cli.idLast
+//@   ensures[C01,C03] runs_unsubscribe: evCount("(*RetryClient).unsubscribe") == 1 && evArg[*BaseClient]("(*RetryClient).unsubscribe", 0, 2) == cli &&
+//@        sameSlice(evArg[[]string]("(*RetryClient).unsubscribe", 0, 3), topics) && evArg[*RetryClient]("(*RetryClient).unsubscribe", 0, 0) == c
+
+//@ func (*RetryClient).subscribe$1
+//@   mode int
+//@   props C01 C03 C08 C18
+//@   requires c != nil && cli != nil && ctx != nil && cli.Transport != nil && subscribable(subs) && !sameArray(c.subEstablished, subs)
+//@   assigns c.subEstablished; c.retryQueue; c.newRetryByError; cli.idLast; subs[*]
+//@   let qs ssnap[retryFn] = sliceSnap(c.retryQueue)
+//@   let n0 bool = c.newRetryByError
+//@   ensures[C08] bookkeeping: evCount("(subscriptions).applyTo") == 1 && sameSlice(evArg[subscriptions]("(subscriptions).applyTo", 0, 0), subs) &&
+//@        evArg[*subscriptions]("(subscriptions).applyTo", 0, 1) == &c.subEstablished &&
+//@        evCount("(*BaseClient).Subscribe") == 1 && evIndex("(subscriptions).applyTo", 0) < evIndex("(*BaseClient).Subscribe", 0)
+//@   ensures[C18] request_ctx: evCount("(*RetryClient).requestContext") == 1 &&
+//@        evArg[context.Context]("(*BaseClient).Subscribe", 0, 1) == evRet[context.Context]("(*RetryClient).requestContext", 0, 0) &&
+//@        evArg[context.Context]("(*RetryClient).requestContext", 0, 1) == ctx
+//@   ensures[C01,C08] same_request: sameSlice(evArg[[]Subscription]("(*BaseClient).Subscribe", 0, 2), subs) && evArg[*BaseClient]("(*BaseClient).Subscribe", 0, 0) == cli
+//@   ensures[C18] on_error: evRet[error]("(*BaseClient).Subscribe", 0, 1) != nil ==> evCount("(*RetryClient).onError") == 1 &&
+//@        evArg[error]("(*RetryClient).onError", 0, 1) == evRet[error]("(*BaseClient).Subscribe", 0, 1)
+//@   ensures[C01,C03,C18] kept: evRet[error]("(*BaseClient).Subscribe", 0, 1) != nil && hasRetry(evRet[error]("(*BaseClient).Subscribe", 0, 1)) &&
+//@        evCount("select") == 1 && (evRet[int]("select", 0, 0) != 0 || retry) ==> queueAppended(c.retryQueue, qs, 1) && c.newRetryByError &&
+//@        isBoundRetry(c.retryQueue[len(c.retryQueue)-1], evRet[error]("(*BaseClient).Subscribe", 0, 1))
+//@   ensures[C01,C03] untouched: evRet[error]("(*BaseClient).Subscribe", 0, 1) == nil || !hasRetry(evRet[error]("(*BaseClient).Subscribe", 0, 1)) ||
+//@        (evCount("select") == 1 && evRet[int]("select", 0, 0) == 0 && !retry) ==> queueAppended(c.retryQueue, qs, 0) && c.newRetryByError == n0
+//@   ensures[C01] result == nil
+//@   ensures[C03] one_request: evCount("(*BaseClient).Publish") == 0 && evCount("(*BaseClient).Unsubscribe") == 0 && evCount("go") == 0
+
+//@ func (*RetryClient).subscribe
+//@   mode int
+//@   props C01 C03 C08
+//@   requires c != nil && cli != nil && ctx != nil && cli.Transport != nil && subscribable(subs) && !sameArray(c.subEstablished, subs)
+//@   assigns c.subEstablished; c.retryQueue; c.newRetryByError; cli.idLast; subs[*]
+//@   let qs ssnap[retryFn] = sliceSnap(c.retryQueue)
+//@   let qlen int = len(c.retryQueue)
+//@   let n0 bool = c.newRetryByError
+//@   ensures[C01,C03,C08] direct: qlen == 0 ==> evCount("(*RetryClient).subscribe$1") == 1 && evArg[*BaseClient]("(*RetryClient).subscribe$1", 0, 1) == cli &&
+//@        evArg[context.Context]("(*RetryClient).subscribe$1", 0, 0) == ctx
+//@   ensures[C01,C03,C08] deferred: qlen > 0 ==> evCount("(*RetryClient).subscribe$1") == 0 && queueAppended(c.retryQueue, qs, 1) && c.newRetryByError == n0 &&
+//@        closureIs(c.retryQueue[len(c.retryQueue)-1], "(*RetryClient).subscribe$1") &&
+//@        sameSlice(*closureVar[*[]Subscription](c.retryQueue[len(c.retryQueue)-1], "(*RetryClient).subscribe$1", 0), subs) &&
+//@        *closureVar[**RetryClient](c.retryQueue[len(c.retryQueue)-1], "(*RetryClient).subscribe$1", 1) == c &&
+//@        *closureVar[*bool](c.retryQueue[len(c.retryQueue)-1], "(*RetryClient).subscribe$1", 2) == retry
+
+//@ func (*RetryClient).unsubscribe$1
+//@   mode int
+//@   props C01 C03 C08 C18
+//@   requires c != nil && cli != nil && ctx != nil && cli.Transport != nil && unsubscribable(topics)
+//@   assigns c.subEstablished; (c.subEstablished)[*]; c.retryQueue; c.newRetryByError; cli.idLast
+//@   let qs ssnap[retryFn] = sliceSnap(c.retryQueue)
+//@   let n0 bool = c.newRetryByError
+//@   ensures[C08] bookkeeping: evCount("(unsubscriptions).applyTo") == 1 && sameSlice(evArg[unsubscriptions]("(unsubscriptions).applyTo", 0, 0), topics) &&
+//@        evArg[*subscriptions]("(unsubscriptions).applyTo", 0, 1) == &c.subEstablished &&
+//@        evCount("(*BaseClient).Unsubscribe") == 1 && evIndex("(unsubscriptions).applyTo", 0) < evIndex("(*BaseClient).Unsubscribe", 0)
+//@   ensures[C18] request_ctx: evCount("(*RetryClient).requestContext") == 1 &&
+//@        evArg[context.Context]("(*BaseClient).Unsubscribe", 0, 1) == evRet[context.Context]("(*RetryClient).requestContext", 0, 0) &&
+//@        evArg[context.Context]("(*RetryClient).requestContext", 0, 1) == ctx
+//@   ensures[C01,C08] same_request: sameSlice(evArg[[]string]("(*BaseClient).Unsubscribe", 0, 2), topics) && evArg[*BaseClient]("(*BaseClient).Unsubscribe", 0, 0) == cli
+//@   ensures[C18] on_error: evRet[error]("(*BaseClient).Unsubscribe", 0, 0) != nil ==> evCount("(*RetryClient).onError") == 1 &&
+//@        evArg[error]("(*RetryClient).onError", 0, 1) == evRet[error]("(*BaseClient).Unsubscribe", 0, 0)
+//@   ensures[C01,C03,C18] kept: evRet[error]("(*BaseClient).Unsubscribe", 0, 0) != nil && hasRetry(evRet[error]("(*BaseClient).Unsubscribe", 0, 0)) &&
+//@        evCount("select") == 1 && evRet[int]("select", 0, 0) != 0 ==> queueAppended(c.retryQueue, qs, 1) && c.newRetryByError &&
+//@        isBoundRetry(c.retryQueue[len(c.retryQueue)-1], evRet[error]("(*BaseClient).Unsubscribe", 0, 0))
+//@   ensures[C01,C03] untouched: evRet[error]("(*BaseClient).Unsubscribe", 0, 0) == nil || !hasRetry(evRet[error]("(*BaseClient).Unsubscribe", 0, 0)) ||
+//@        (evCount("select") == 1 && evRet[int]("select", 0, 0) == 0) ==> queueAppended(c.retryQueue, qs, 0) && c.newRetryByError == n0
+//@   ensures[C01] result == nil
+//@   ensures[C03] one_request: evCount("(*BaseClient).Publish") == 0 && evCount("(*BaseClient).Subscribe") == 0 && evCount("go") == 0
+
+//@ func (*RetryClient).unsubscribe
+//@   mode int
+//@   props C01 C03 C08
+//@   requires c != nil && cli != nil && ctx != nil && cli.Transport != nil && unsubscribable(topics)
+//@   assigns c.subEstablished; (c.subEstablished)[*]; c.retryQueue; c.newRetryByError; cli.idLast
+//@   let qs ssnap[retryFn] = sliceSnap(c.retryQueue)
+//@   let qlen int = len(c.retryQueue)
+//@   let n0 bool = c.newRetryByError
+//@   ensures[C01,C03,C08] direct: qlen == 0 ==> evCount("(*RetryClient).unsubscribe$1") == 1 && evArg[*BaseClient]("(*RetryClient).unsubscribe$1", 0, 1) == cli &&
+//@        evArg[context.Context]("(*RetryClient).unsubscribe$1", 0, 0) == ctx
+//@   ensures[C01,C03,C08] deferred: qlen > 0 ==> evCount("(*RetryClient).unsubscribe$1") == 0 && queueAppended(c.retryQueue, qs, 1) && c.newRetryByError == n0 &&
+//@        closureIs(c.retryQueue[len(c.retryQueue)-1], "(*RetryClient).unsubscribe$1") &&
+//@        sameSlice(*closureVar[*[]string](c.retryQueue[len(c.retryQueue)-1], "(*RetryClient).unsubscribe$1", 0), topics) &&
+//@        *closureVar[**RetryClient](c.retryQueue[len(c.retryQueue)-1], "(*RetryClient).unsubscribe$1", 1) == c
+
+//@ func (*BaseClient).Subscribe
+//@   mode int
+//@   props C01 C07
+//@   requires c != nil && ctx != nil && c.Transport != nil && subscribable(subs)
+//@   assigns c.idLast; subs[*]
+//@   ensures[C01,C07] delegates: evCount("subscribeImpl") == 1 && evArg[*BaseClient]("subscribeImpl", 0, 1) == c && evArg[context.Context]("subscribeImpl", 0, 0) == ctx &&
+//@        sameSlice(evArg[[]Subscription]("subscribeImpl", 0, 2), subs) && result1 == evRet[error]("subscribeImpl", 0, 1)
+
+//@ func (*BaseClient).Unsubscribe
+//@   mode int
+//@   props C01 C07
+//@   requires c != nil && ctx != nil && c.Transport != nil && unsubscribable(subs)
+//@   assigns c.idLast
+//@   ensures[C01,C07] delegates: evCount("unsubscribeImpl") == 1 && evArg[*BaseClient]("unsubscribeImpl", 0, 1) == c && evArg[context.Context]("unsubscribeImpl", 0, 0) == ctx &&
+//@        sameSlice(evArg[[]string]("unsubscribeImpl", 0, 2), subs) && result == evRet[error]("unsubscribeImpl", 0, 0)
